@@ -113,6 +113,53 @@ def quadrature(ck):
     return {"evaluations": n, "failures": fails}
 
 
+def scan_history(gstate):
+    """native design for state shared between geometry objects: pairs of configurations that differ in exactly one field (a scan over
+    altitude, limb angle, Cherenkov angle, azimuth range); the second object of each pair, built after the first, must carry the same
+    normalisation and sampling constants as the same configuration built from the state the package starts with"""
+    base = dict(alt=525.0, lat=0.3, lon=-1.1, limb=np.radians(7.0), thmax=np.radians(3.0), dphi=np.radians(360.0))
+    alts = dict(alt=33.0, lat=-0.4, lon=0.5, limb=np.radians(3.0), thmax=np.radians(1.5), dphi=np.radians(90.0))
+
+    def consts(g):
+        return {k: float(v) for k, v in vars(g).items() if isinstance(v, (float, int, np.floating)) and not isinstance(v, bool)}
+
+    n = 0
+    for k in base:
+        second = dict(base, **{k: alts[k]})
+        gstate.restore()
+        ref = consts(C02.native_geom(**second))
+        gstate.restore()
+        C02.native_geom(**base)
+        got = consts(C02.native_geom(**second))
+        n += 1
+        for name, want in ref.items():
+            if name in got and not np.isclose(got[name], want, rtol=1e-12, atol=0, equal_nan=True):
+                return {"violated": True, "function": "region_geometry:RegionGeom.__init__", "history": "a geometry built from `first`, then one built from `second` (differs in `%s` only)" % k,
+                        "input": {"first": base, "second": second}, "observed": {"attribute": name, "second object": got[name], "same configuration built first": want}}
+    gstate.restore()
+    return {"violated": False, "evaluations": n}
+
+
+def global_state(ck, run_):
+    """RegionGeom.__init__ + throw bind attributes of the new object only: no class-level or module-level state (what one geometry leaves
+    behind for the next one), beyond what the pinned tree writes"""
+    qn = "region_geometry:RegionGeom.__init__+throw"
+    keys = {k for k in harness.global_state_keys(run_.paths[0].effects) if k.startswith(("class ", "module "))}
+    ck.state_frames.setdefault(qn, set()).update(keys)
+    base = ck.expected_state.get(qn)
+    if base is None:
+        return
+    new = sorted(keys - set(base))
+    if not new:
+        ck.direct("%s/assigns.state" % qn, True, "frame", "effect-log(symbolic execution)", note="class / module level writes: %s" % (", ".join(sorted(keys)) or "none"),
+                  clause="constructing and throwing a geometry leaves no class- or module-level state behind (a later geometry object cannot see an earlier one)")
+        return
+    h = scan_history(harness.GlobalState(new))
+    ck.direct("%s/assigns.state" % qn, False if h.get("violated") else None, "frame", "effect-log(symbolic execution) + native configuration-scan history",
+              note="state shared between geometry objects: %s%s" % (", ".join(new), "" if h.get("violated") else "; no failing history found (%s pairs)" % h.get("evaluations")),
+              clause="constructing a geometry leaves no class- or module-level state behind that changes a later geometry (new: %s)" % ", ".join(new), witness={"new_state": new}, replay_out=h)
+
+
 def run(ck):
     ck.assume("change-of-variables theorem: a pointwise identity weight x norm = integrand x |Jacobian| on the cube plus bijectivity of the sampling map onto the region gives E[estimator] = aperture (mathematics, not machine-checked here)",
               "intermediate value theorem, triple-angle identity and sympy's exact foldings of inverse trigonometric functions (see C02)")
@@ -125,6 +172,7 @@ def run(ck):
         o.note = str([(p.kind, str(p.exc), getattr(p, "where", "")) for p in run_.paths])[:300]
         ck._undecided(o, lambda: native_first(ck))
     else:
+        global_state(ck, run_)
         C02.init_obligations(ck, run_)
         norm_and_jacobian(ck, run_)
         C02.throw_obligations(ck, run_)  # inverse-CDF of the path length, region mask, emergence angle: the image of the cube is exactly the region
